@@ -93,14 +93,34 @@ def elementwise2(I, st, f, a, b, node=None):
         x = A.elem(*ma(list(idx))) if A is not None else a
         y = B.elem(*mb(list(idx))) if B is not None else b
         return f(x, y)
-    return st.alloc(Arr(shape, elem, kind="ndarray", etype="real"), "arr")
+    return st.alloc(Arr(shape, elem, kind="ndarray", etype=_probe_etype(I, st, elem, len(shape))), "arr")
+
+
+def _probe_etype(I, st, elem, nd):
+    """Element type of a lifted expression: evaluate it once at fresh indices (obligations suppressed)."""
+    I.in_contract += 1
+    nf, npc = len(st.facts), len(st.pc)
+    try:
+        v = elem(*[z3.Int(fresh_name("probe")) for _ in range(nd)])
+    except Unsupported:
+        return "real"
+    finally:
+        I.in_contract -= 1
+        del st.facts[nf:]
+        del st.pc[npc:]
+    if is_boolish(v):
+        return "bool"
+    if isinstance(v, int) or (is_z3(v) and z3.is_int(v)):
+        return "int"
+    return "real"
 
 
 def elementwise(I, st, f, a):
     A = _arr(I, st, a)
     if A is None:
         return f(a)
-    return st.alloc(Arr(A.shape, lambda *idx: f(A.elem(*idx)), kind="ndarray", etype=A.etype), "arr")
+    el = lambda *idx: f(A.elem(*idx))  # noqa: E731
+    return st.alloc(Arr(A.shape, el, kind="ndarray", etype=_probe_etype(I, st, el, A.ndim)), "arr")
 
 
 def _norm_index(I, st, i, n, node, what="index-in-range"):
@@ -228,11 +248,11 @@ def fancy_get(I, st, a: Arr, ix: Arr, node=None):
         raise Unsupported("boolean-mask selection (result length is data dependent)")
     n = a.shape[0]
     if not I.in_contract and not I.dry:
-        j = z3.Int(fresh_name("fj"))
-        if ix.ndim == 1:
-            v = to_z3(ix.elem(j))
-            I.safety(st, z3.ForAll([j], z3.Implies(z3.And(j >= 0, j < to_z3(ix.shape[0])),
-                                                   z3.And(v >= 0, v < to_z3(n)))), "fancy-index-in-range", node)
+        js = [z3.Int(fresh_name("fj")) for _ in range(ix.ndim)]
+        v = to_z3(ix.elem(*js))
+        rng = zand(*[zand(j >= 0, j < to_z3(m_)) for j, m_ in zip(js, ix.shape)])
+        # skolemised: js are fresh constants, so the element's library facts are instantiated at them
+        I.oblige(st, zimplies(rng, z3.And(v >= 0, v < to_z3(n))), "S", "fancy-index-in-range", node)
     shape = tuple(ix.shape) + tuple(a.shape[1:])
 
     def elem(*idx):
@@ -328,8 +348,7 @@ def fancy_set(I, st, base, a: Arr, K: Arr, val, V, node=None):
     if not I.in_contract and not I.dry:
         j = z3.Int(fresh_name("fs"))
         kv = to_z3(K.elem(j))
-        I.safety(st, z3.ForAll([j], z3.Implies(z3.And(j >= 0, j < m), z3.And(kv >= 0, kv < n))),
-                 "fancy-index-in-range", node)
+        I.oblige(st, z3.Implies(z3.And(j >= 0, j < m), z3.And(kv >= 0, kv < n)), "S", "fancy-index-in-range", node)
         if V is not None:
             _dims_equal(I, st, V.shape[0], K.shape[0], node)
     pos = z3.Function(fresh_name("pos"), z3.IntSort(), z3.IntSort())
@@ -428,10 +447,16 @@ def isinstance_(I, st, v, tnode):
         return ("ndarray" in names) if a.kind == "ndarray" else (a.kind in names)
     if isinstance(v, Obj):
         return any(I.repo.is_subclass(v.cls, n) for n in names)
+    if isinstance(v, Opaque):
+        if v.cls and any(I.repo.is_subclass(v.cls, n) for n in names):
+            return True
+        from .values import intern_str
+        return zor(*[_ISINST(v.term, z3.IntVal(intern_str(n))) for n in names])
     raise Unsupported("isinstance on " + type(v).__name__)
 
 
 _TYPE_NAME = z3.Function("type_name", ObjS, z3.IntSort())
+_ISINST = z3.Function("isinstance", ObjS, z3.IntSort(), z3.BoolSort())
 
 
 def type_of(I, st, v):
@@ -455,7 +480,10 @@ def b_len(I, st, args, kw, node):
     if isinstance(v, Ref) and v.what == "cdict":
         return len(st.heap[v.rid].items)
     if isinstance(v, Ref) and v.what == "dict":
-        raise Unsupported("len of symbolic dict")
+        d = st.heap[v.rid]
+        if d.size is None:
+            raise Unsupported("len of symbolic dict")
+        return d.size
     a = _arr(I, st, v)
     if a is None:
         raise Unsupported("len of " + type(v).__name__)
